@@ -185,7 +185,14 @@ impl NetworkStream {
             InnerTlsParameters::NativeTls(connector) => {
                 let stream = connector
                     .connect(tls_parameters.domain(), tcp_stream)
-                    .map_err(error::connection)?;
+                    .map_err(|err| match err {
+                        // The socket is blocking: the handshake is only ever
+                        // interrupted by the expiry of the socket timeout
+                        native_tls::HandshakeError::WouldBlock(_) => error::connection(
+                            io::Error::new(io::ErrorKind::TimedOut, "TLS handshake timed out"),
+                        ),
+                        err => error::connection(err),
+                    })?;
                 InnerNetworkStream::NativeTls(stream)
             }
             #[cfg(feature = "rustls")]
